@@ -130,3 +130,96 @@ VARIANTS["C09"] = [
     V("twin-ns-rint", "twin", SG, [(
         "return int(np.round(self.meta.get(\"fileTimeSecs\") * self.fs))", "return int(np.rint(self.meta[\"fileTimeSecs\"] * self.fs))")], (), ""),
 ]
+
+# ------------------------------------------------------------------------------------------------ C02
+VARIANTS["C02"] = [
+    V("out-is-final", "fire", SG, [(
+        "        file_tmp = self.file_bin.with_suffix(\".cbin_tmp\")\n", "        file_tmp = self.file_bin.with_suffix(\".cbin\")\n")], ("D1",),
+      "compression writes straight to the final name; only a failure mid-compression shows it"),
+    V("no-rename", "fire", SG, [(
+        "            out=file_tmp,\n", "            out=self.file_bin.with_suffix(\".cbin\"),\n"), (
+        "        file_tmp.rename(file_out)\n", "")], ("D1",), ""),
+    V("unlink-before-rename", "fire", SG, [(
+        "        file_out = file_tmp.with_suffix(\".cbin\")\n        file_tmp.rename(file_out)\n        if not keep_original:\n            self.file_bin.unlink()\n            self.file_bin = file_out\n",
+        "        file_out = file_tmp.with_suffix(\".cbin\")\n        if not keep_original:\n            self.file_bin.unlink()\n        file_tmp.rename(file_out)\n        if not keep_original:\n            self.file_bin = file_out\n")],
+      ("D2",), "source removed before the replacement carries its final name"),
+    V("unlink-before-compress", "fire", SG, [(
+        "        assert not self.is_mtscomp\n        mtscomp.compress(", "        assert not self.is_mtscomp\n        if not keep_original:\n            self.file_bin.unlink()\n        mtscomp.compress("), (
+        "        if not keep_original:\n            self.file_bin.unlink()\n            self.file_bin = file_out\n", "        if not keep_original:\n            self.file_bin = file_out\n")],
+      ("D2",), ""),
+    V("keep-original-guard-dropped", "fire", SG, [(
+        "        r.close()\n        if not keep_original:\n            self.close()\n            self.file_bin.unlink()\n",
+        "        r.close()\n        self.close()\n        self.file_bin.unlink()\n        if not keep_original:\n")], ("D2",),
+      "decompress_file always removes the .cbin"),
+    V("unlink-before-close", "fire", SG, [(
+        "        r.close()\n        if not keep_original:\n            self.close()\n            self.file_bin.unlink()\n            self.file_bin.with_suffix(\".ch\").unlink()\n            self.file_bin = kwargs[\"out\"]\n",
+        "        if not keep_original:\n            self.close()\n            self.file_bin.unlink()\n            self.file_bin.with_suffix(\".ch\").unlink()\n            self.file_bin = kwargs[\"out\"]\n        r.close()\n")], ("D2",), ""),
+    V("scratch-direct", "fire", SG, [(
+        "keep_original=True, out=bin_file.with_suffix('.bin_temp'), check_after_decompress=False, overwrite=True\n            )\n            shutil.move(bin_file.with_suffix('.bin_temp'), bin_file)\n",
+        "keep_original=True, out=bin_file, check_after_decompress=False, overwrite=True\n            )\n")], ("D1",),
+      "an interrupted decompression leaves a partial .bin that the next call takes for complete"),
+    V("scratch-move-first", "fire", SG, [(
+        "            self.decompress_file(\n                keep_original=True, out=bin_file.with_suffix('.bin_temp'), check_after_decompress=False, overwrite=True\n            )\n            shutil.move(bin_file.with_suffix('.bin_temp'), bin_file)\n",
+        "            if bin_file.with_suffix('.bin_temp').exists():\n                shutil.move(bin_file.with_suffix('.bin_temp'), bin_file)\n                return bin_file\n            self.decompress_file(\n                keep_original=True, out=bin_file.with_suffix('.bin_temp'), check_after_decompress=False, overwrite=True\n            )\n            shutil.move(bin_file.with_suffix('.bin_temp'), bin_file)\n")],
+      ("D1",), "a leftover temp from a crashed run is published as if complete"),
+    V("cbin-candidate-dead", "fire", SG, [(
+        "            self.file_bin = next(\n                (f for f in (sglx_file.with_suffix(\".bin\"), sglx_file.with_suffix(\".cbin\")) if f.exists()),\n                None,\n            )\n",
+        "            self.file_bin = sglx_file.with_suffix(\".cbin\") if sglx_file.with_suffix(\".cbin\").exists() else None\n            self.file_bin = sglx_file.with_suffix(\".bin\") if sglx_file.with_suffix(\".bin\").exists() else None\n")],
+      ("D3",), "regression of the F2 repair"),
+    V("only-bin-candidate", "fire", SG, [(
+        "(f for f in (sglx_file.with_suffix(\".bin\"), sglx_file.with_suffix(\".cbin\")) if f.exists())", "(f for f in (sglx_file.with_suffix(\".bin\"),) if f.exists())")],
+      ("D3",), ""),
+    V("twin-os-replace", "twin", SG, [(
+        "        file_tmp.rename(file_out)\n", "        file_tmp.replace(file_out)\n")], (), ""),
+    V("twin-temp-suffix-renamed", "twin", SG, [(
+        "self.file_bin.with_suffix(\".cbin_tmp\")", "self.file_bin.with_suffix(\".cbin_partial\")")], (), ""),
+    V("twin-scratch-temp-var", "twin", SG, [(
+        "            self.decompress_file(\n                keep_original=True, out=bin_file.with_suffix('.bin_temp'), check_after_decompress=False, overwrite=True\n            )\n            shutil.move(bin_file.with_suffix('.bin_temp'), bin_file)\n",
+        "            tmp = bin_file.with_suffix('.bin_temp')\n            self.decompress_file(keep_original=True, out=tmp, check_after_decompress=False, overwrite=True)\n            shutil.move(tmp, bin_file)\n")], (), ""),
+]
+
+# ------------------------------------------------------------------------------------------------ C04
+VARIANTS["C04"] = [
+    V("delete-guard-or", "fire", NP, [(
+        "        if self.check_completed and self.delete_original:", "        if self.check_completed or self.delete_original:")], ("D1",),
+      "post_check=False + delete_original=True deletes an unverified original"),
+    V("delete-guard-no-check", "fire", NP, [(
+        "        if self.check_completed and self.delete_original:", "        if self.delete_original:")], ("D1",), ""),
+    V("check-completed-early", "fire", NP, [(
+        "        wg = WindowGenerator(self.nsamples, self.samples_window, 0)\n        for first, last in wg.firstlast:\n            expected = self.sr[first:last, :]",
+        "        wg = WindowGenerator(self.nsamples, self.samples_window, 0)\n        self.check_completed = True\n        for first, last in wg.firstlast:\n            expected = self.sr[first:last, :]"), (
+        "            sr.close()\n\n        self.check_completed = True\n", "            sr.close()\n")], ("D2",), ""),
+    V("check-completed-in-init", "fire", NP, [(
+        "        self.check_completed = False\n", "        self.check_completed = not self.post_check\n")], ("D2",),
+      "post_check=False is treated as verified"),
+    V("verify-logs-only", "fire", NP, [(
+        "            assert np.array_equal(\n                expected, chunk\n            ), \"data in original file and split files do no match\"\n",
+        "            if not np.array_equal(expected, chunk):\n                _logger.error(\"data in original file and split files do no match\")\n")], ("D2",),
+      "testIncorrectSplitting would fail, but combined with a try/except variant it would not; kept as the simplest form"),
+    V("verify-subset-columns", "fire", NP, [(
+        "            expected = self.sr[first:last, :]\n            chunk = np.zeros_like(expected)", "            expected = self.sr[first:last, : self.napch]\n            chunk = np.zeros_like(expected)")],
+      ("D2",), "sync column never verified"),
+    V("np21-unlink-before-compress", "fire", NP, [(
+        "                cbin_file = self.sr.compress_file()\n                self.sr.close()\n                self.ap_file.unlink()\n",
+        "                self.sr.close()\n                self.ap_file.unlink()\n                cbin_file = self.sr.compress_file()\n")], ("D1",), ""),
+    V("missing-ok-removed", "fire", NP, [(
+        "                cbin_file = bin_file.with_suffix(\".cbin\")\n                cbin_file.unlink(missing_ok=True)\n\n            sr_ap",
+        "                cbin_file = bin_file.with_suffix(\".cbin\")\n                cbin_file.unlink()\n\n            sr_ap")], ("D3",), "regression of the F4 repair"),
+    V("already-processed-guard-removed", "fire", NP, [(
+        "        if self.already_processed:\n            _logger.warning(\n                \"This ap file is an NP2.4 that has already been split into shanks, \"\n                \"nothing to do here\"\n            )\n            return 0\n\n", "")],
+      ("D4",), ""),
+    V("already-exists-no-return", "fire", NP, [(
+        "                \"to force reprocessing set overwrite to True\"\n            )\n            return 0\n\n        # Initial checks out the way",
+        "                \"to force reprocessing set overwrite to True\"\n            )\n\n        # Initial checks out the way")], ("D4",), ""),
+    V("prepare-ignores-overwrite", "fire", NP, [(
+        "            if not probe_path.exists() or overwrite:\n", "            if True:\n")], ("D4",), ""),
+    V("marker-key-changed", "fire", NP, [(
+        "            meta_shank[f\"{self.np_version}_shank\"] = int(sh[-1])\n            meta_file = self.shank_info[sh][\"ap_file\"].with_suffix(\".meta\")",
+        "            meta_shank[f\"{self.np_version}_shank_index\"] = int(sh[-1])\n            meta_file = self.shank_info[sh][\"ap_file\"].with_suffix(\".meta\")")], ("D5",), ""),
+    V("twin-exists-guard", "twin", NP, [(
+        "                cbin_file = bin_file.with_suffix(\".cbin\")\n                cbin_file.unlink(missing_ok=True)\n\n            sr_ap",
+        "                cbin_file = bin_file.with_suffix(\".cbin\")\n                if cbin_file.exists():\n                    cbin_file.unlink()\n\n            sr_ap")], (), ""),
+    V("twin-delete-nested-ifs", "twin", NP, [(
+        "        if self.check_completed and self.delete_original:\n            _logger.info(f\"Removing original file in folder {self.ap_file}\")\n            self.sr.close()\n            self.ap_file.unlink()\n",
+        "        if not self.delete_original:\n            return\n        if self.check_completed:\n            _logger.info(f\"Removing original file in folder {self.ap_file}\")\n            self.sr.close()\n            self.ap_file.unlink()\n")], (), ""),
+]
